@@ -41,6 +41,31 @@ class Calls(Interp):
                         v = self.lift(v, s2)
                     yield st, v
                 return
+            if st.spec and n == 'every' and self._unbound(n, st):
+                # every(T, lambda x: P): universal quantification over all values of a type
+                (s1, tyv), = list(self.ev(e.args[0], st))
+                if isinstance(tyv, type) and tyv in self.reg.by_py:
+                    ty = CLS(tyv.__name__)
+                elif isinstance(tyv, type) and tyv in self.reg.abstract:
+                    ty = CLS(self.reg.abstract[tyv])
+                elif tyv is int:
+                    ty = INT
+                elif tyv is bytes:
+                    ty = BYTES
+                elif isinstance(tyv, T):
+                    ty = tyv
+                else:
+                    raise Outside("every() over %r" % (tyv,))
+                (s2, lam), = list(self.ev(e.args[1], st))
+                x = self.fresh('x', ty)
+                sub = st.fork()
+                sub.bound = st.bound + [x.t]
+                outs = list(self.call_value(lam, [x], {}, sub, e))
+                if len(outs) != 1 or isinstance(outs[0][1], Raised):
+                    raise Outside("every(): body must be a pure expression")
+                body = self.b(self.truth(outs[0][1], outs[0][0]))
+                yield st, V(z3.ForAll([x.t], body), BOOL)
+                return
             if st.spec and n == 'same' and self._unbound(n, st):
                 # abstract-value equality of two specification values (not python __eq__)
                 (s1, a), = list(self.ev(e.args[0], st))
